@@ -1,10 +1,25 @@
 (* C04 — no exported entry point panics or hangs.
-   The model has an explicit Panic outcome for every Go construct that can panic (nil dereference,
-   slice index/bounds, nil-map write, decoder on invalid text).  Proved so far: the index arithmetic
-   never reaches the panicking slice expressions; in the stated domain of C01 Apply never panics
-   (its outcome is a document or an error); set after get never panics.  Totality of the model over
-   ALL byte strings (including malformed and out-of-domain pointers) is an open obligation: it is
-   covered on every run by executing every generated input of every stream under recover(). *)
+   The model has an explicit Panic outcome for every Go construct of the patch engines that can panic
+   (nil dereference, slice index/bounds, nil-map write, decoder on invalid text).  What is proved:
+   - v5 Apply / ApplyIndent / ApplyWithOptions is TOTAL (Totality.v): for every options record, every
+     indent, every document byte string and every operation list whose add / replace operations aimed
+     at the whole document carry a value member (op_ok) the outcome is never RPanic
+     (C04_apply_never_panics); every DecodePatch output satisfies op_ok, so DecodePatch followed by
+     Apply never panics on any two byte strings (C04_decode_then_apply_never_panics); op_ok is exactly
+     the panic condition of a single operation (C04_unvalidated_add_panics: a hand-assembled Patch
+     without it does panic, which is outside the property's quantifier);
+   - legacy Apply / ApplyIndent is TOTAL with no hypothesis at all (TotalityV4.v): every setting of the
+     package variables, every indent, document and operation list (C04_legacy_apply_never_panics,
+     C04_legacy_apply_total, C04_legacy_step_never_panics, C04_legacy_apply_from_never_panics,
+     C04_legacy_decode_then_apply_never_panics); this proof found the panic repaired by fix 1a7093a;
+   - the older, narrower statements are kept: the index arithmetic never reaches the panicking slice
+     expressions, set after get never panics, Apply in the domain of C01 yields a document or an error.
+   Hangs: every modelled algorithm is a total Gallina function (structural recursion; explicit fuel in
+   the reader, merge and equal, chosen from the input size), so the model cannot diverge.
+   NOT a theorem: the entry points and helpers whose model type has no panic outcome (DecodePatch,
+   Equal, MergePatch, MergeMergePatches, CreateMergePatch; load_doc, marshal_root, print, deep_copy
+   inside Apply): that the Go code does not panic there rests on the correspondence (every generated
+   input of every stream is executed under recover() with a crash replay, and under a watchdog). *)
 From JP Require Import Bytes Json Text Strings Den Pointer Rfc6902 ImplV5 Domain ImplFacts ApplyFacts Depth ApplySim.
 
 (* partialArray.add: the copy(ary[0:idx], ...) that could panic for a negative index is unreachable,
